@@ -16,14 +16,15 @@ contract("artap.individual:Individual.__init__", props=["C05", "C06", "C09", "C1
                   "self.parents is not self.children",
                   "implies(is_none(vector), len(self.vector) == 0)",
                   "implies(not is_none(vector), seq_eq(self.vector, vector))",
-                  "self.features['feasible'] == 0", "self.features['precision'] == 7"],
-         modifies=_IND_FIELDS + ["$cv.Individual.counter"], allocates=_ALLOC_IND)
+                  "self.features['feasible'] == 0", "self.features['precision'] == 7", "self.ghost_evals == 0"],
+         ghost={"after:self.custom = {}": ["self.ghost_evals = 0"]},
+         modifies=_IND_FIELDS + ["self.ghost_evals", "$cv.Individual.counter"], allocates=_ALLOC_IND)
 
 define("signed_image", ["x", "signs"],
        "len(x.costs_signed) == (len(signs) if len(signs) < len(x.costs) else len(x.costs)) + 1 and "
        "forall(lambda i: x.costs_signed[i] == signs[i] * round_dec(x.costs[i], x.features['precision']), 0, len(x.costs_signed) - 1) and "
        "x.costs_signed[len(x.costs_signed) - 1] == (1 if x.features['feasible'] == 0 else 0)")
-contract("artap.individual:Individual.calc_signed_costs", props=["C05"],
+contract("artap.individual:Individual.calc_signed_costs", props=["C05"], options={"mul": "uninterpreted"},
          types={"p_signs": "List[Int]"},
          requires=["valid(self.features)", "valid(self.costs)", "valid(p_signs)"],
          ensures=["signed_image(self, p_signs)", "fresh(self.costs_signed)", "unchanged(self.costs)"],
@@ -70,7 +71,8 @@ _CALLED = ("implies(self.passthrough, self.problem.ghost_calls == old(self.probl
 contract("SurrogateModel.evaluate", abstract=True, params=["self", "individual"], props=["C05", "C06", "C09", "C14"],
          types={"self": "Ref[SurrogateModel]", "individual": "Ref[Individual]", "result": "List[Real]"},
          requires=["valid(self.problem)"],
-         ensures=["fresh(result)", _CALLED, "implies(self.passthrough, seq_eq(result, self.problem.ghost_last_ret))", _NT_SAME],
+         ensures=["fresh(result)", _CALLED, "implies(self.passthrough, seq_eq(result, self.problem.ghost_last_ret))", _NT_SAME,
+                  "len(result) == self.problem.ghost_ncosts"],
          raises={"TimeoutError": [_CALLED, _NT_SAME], "RuntimeError": [_CALLED, _NT_SAME],
                  "OtherError": [_CALLED, "self.problem.ghost_nontransient == old(self.problem.ghost_nontransient) + 1"]},
          modifies=_GHOST + ["self.eval_counter", "self.predict_counter", "self.trained", "self.ghost_trains", "self.regressor",
@@ -97,7 +99,7 @@ define("job_wf", ["j", "x"],
        "j.problem.surrogate.y_data is not j.problem.parameters and j.problem.failed is not j.problem.parameters")
 define("n_failed", ["j"], "len(j.problem.failed) - old(len(j.problem.failed))")
 
-contract("artap.job:Job.evaluate", props=["C05", "C06", "C09", "C11", "C14"],
+contract("artap.job:Job.evaluate", props=["C05", "C06", "C09", "C11", "C14"], options={"mul": "uninterpreted"},
          types={"individual": "Ref[Individual]"},
          locals={"constraints": "List[Real]", "costs": "List[Real]", "eps": "Real", "failed_individual": "Ref[Individual]"},
          requires=["job_wf(self, individual)"],
@@ -128,18 +130,26 @@ contract("artap.job:Job.evaluate", props=["C05", "C06", "C09", "C11", "C14"],
              "forall(lambda t: self.problem.failed[t].state == 3, old(len(self.problem.failed)), len(self.problem.failed))",
              # C06: a normal return means no non-transient exception was swallowed
              _NT_SAME,
+             # ghost per-design evaluation counter (C05: "exactly once per not-yet-evaluated design", used by the batch contracts)
+             "individual.ghost_evals == old(individual.ghost_evals) + (0 if old(individual.state) == 2 else 1)",
+             "implies(old(individual.state) != 2, len(individual.costs) == self.problem.ghost_ncosts)",
+             "implies(old(individual.state) != 2, fresh(individual.costs) and fresh(individual.costs_signed) and "
+             "individual.costs is not individual.costs_signed)",
          ],
          raises={
              # C06: five consecutive transient failures -> RuntimeError from the retry loop, five failed designs recorded
              "RuntimeError": ["n_failed(self) == 5", "individual.state != 2", _NT_SAME,
+                              "individual.ghost_evals == old(individual.ghost_evals)",
                               "implies(self.problem.surrogate.passthrough, self.problem.ghost_calls == old(self.problem.ghost_calls) + 5)"],
              # C06: any other exception propagates at once and the design is not marked evaluated
              "OtherError": ["individual.state != 2", "0 <= n_failed(self) and n_failed(self) <= 4",
+                            "individual.ghost_evals == old(individual.ghost_evals)",
                             "self.problem.ghost_nontransient == old(self.problem.ghost_nontransient) + 1",
                             "implies(self.problem.surrogate.passthrough, "
                             "self.problem.ghost_calls == old(self.problem.ghost_calls) + n_failed(self) + 1)"],
          },
          loops={1: ["old(individual.state) != 2", "individual.state != 2", "_k <= 5", _NT_SAME,
+                    "individual.ghost_evals == old(individual.ghost_evals)",
                     "len(self.problem.failed) == old(len(self.problem.failed)) + _k",
                     "implies(self.problem.surrogate.passthrough, self.problem.ghost_calls == old(self.problem.ghost_calls) + _k)",
                     "implies(_k >= 1, inbox_tol(individual.vector, self.problem.parameters))",
@@ -149,10 +159,11 @@ contract("artap.job:Job.evaluate", props=["C05", "C06", "C09", "C11", "C14"],
                     "forall(lambda t: self.problem.failed[t] is old(self.problem.failed[t]), 0, old(len(self.problem.failed)))",
                     "forall(lambda t: self.problem.failed[t].state == 3 and valid(self.problem.failed[t]) and fresh(self.problem.failed[t]), old(len(self.problem.failed)), len(self.problem.failed))",
                     ]},
-         ghost={"after:self.problem.failed.append(failed_individual)": [
+         ghost={"after:individual.state = individual.State.EVALUATED": ["individual.ghost_evals = individual.ghost_evals + 1"],
+                "after:self.problem.failed.append(failed_individual)": [
              # C06: the design recorded as failed carries the vector whose evaluation has just failed
              "assert implies(self.problem.surrogate.passthrough, seq_eq(failed_individual.vector, self.problem.ghost_last_vec)) and failed_individual.state == 3"]},
-         modifies=["individual.state", "individual.costs", "individual.costs_signed", "individual.vector",
+         modifies=["individual.state", "individual.costs", "individual.costs_signed", "individual.vector", "individual.ghost_evals",
                    "individual.features.start_time", "individual.features.finish_time", "individual.features.feasible",
                    "list(self.problem.failed)", "self.problem.ghost_last_g"] + ["self.problem.ghost_calls", "self.problem.ghost_last_arg",
                                                    "self.problem.ghost_last_vec", "self.problem.ghost_last_ret",
